@@ -58,6 +58,13 @@ class C10(EvalFamProp):
             io['reuse'] = {'err': 'harness:' + str(e)[:80]}
         return io
 
+    def model_requests(self, case):
+        # the model is also asked about the permuted layout: a dependency cycle through an !eval name (recorded finding D21) may be
+        # reached in one layout only (another error comes first in the other)
+        rng = _random.Random(case.get('vseed', 0))
+        pdocs = [dict(d, raw=permute(rng, d['raw'])) for d in case['docs']]
+        return super().model_requests(case) + [{'op': 'config', 'docs': pdocs, 'world': self.WORLD}]
+
     def oracle(self, case, io, ans):
         cfg = io['cfg']
         if cfg.get('err') == 'HANG':
@@ -94,7 +101,11 @@ class C10(EvalFamProp):
                 if sorted(e[0] + '@' + str(e[1]) for e in io['exec']) != ru['exec']:
                     return 'a build with a re-used evaluation context runs a different set of dynamic nodes'
         pc = io['perm']['cfg']
+        cycp = bool(ans) and ans[-1].get('err') in ('recursion', 'unsupported')
         if 'ok' in pc and has_leak(pc['ok']) and not cyc0:
+            if cycp:
+                return ('D21: with permuted keys a dependency cycle through an !eval name lookup is reached (the model refuses it), the build '
+                        'succeeds and a consumer receives a lazy placeholder')
             return 'with permuted keys a consumer received a lazy placeholder / node object instead of the evaluated object'
         cyc = ans and ans[0].get('err') in ('recursion', 'unsupported')
         if not cyc and not (('ok' in cfg and has_leak(cfg['ok'])) or ('ok' in pc and has_leak(pc['ok']))):
